@@ -49,9 +49,9 @@ NodeObs(F, n) ==
     [] OTHER -> <<Info(F, PathOf(n))>>
 ConeState(c, F) == <<[x \in Cone(c) |-> CmdSig(x)], [n \in ConeNodes(c) |-> NodeObs(F, n)]>>
 
-DirectNodes(c) == SeqToSet(Cmd(c).ins) \cup SeqToSet(Cmd(c).reads) \cup SeqToSet(Cmd(c).outs)
-DirectState(c, F) == <<CmdSig(c), [n \in DirectNodes(c) |-> NodeObs(F, n)]>>
-Snap(c, F) == [cone |-> ConeState(c, F), direct |-> DirectState(c, F)]
+DirectIn(c, F) == [n \in SeqToSet(Cmd(c).ins) \cup SeqToSet(Cmd(c).reads) |-> NodeObs(F, n)]
+DirectOut(c, F) == [n \in SeqToSet(Cmd(c).outs) |-> NodeObs(F, n)]
+Snap(c, F) == [sig |-> CmdSig(c), ins |-> DirectIn(c, F), outs |-> DirectOut(c, F)]
 
 MCInit ==
   /\ desc \in InitDescs
@@ -91,18 +91,20 @@ MCNext == budget.steps > 0 /\ (MCMutate \/ MCSwitch \/ \E k0 \in Targets : MCBui
 MCSpec == MCInit /\ [][MCNext]_mcvars
 
 -----------------------------------------------------------------------------
-(* C09 (no unnecessary work): a command that ran had something in its input cone changed since it last ran   *)
-(* successfully - description parts, source or intermediate files, its own outputs, failure markers - or is   *)
-(* exempt (always-out-of-date, stale-file removal, allow-modified-outputs refresh)                             *)
+(* C09 (no unnecessary work): a command that ran had its definition, something it reads, or one of its outputs changed   *)
+(* since it last ran successfully - or is exempt (always-out-of-date, stale-file removal, allow-modified-outputs)          *)
 NoSpuriousRerun ==
   IsBuild => \A c \in RanSet :
      \/ ExemptFromNull(c) \/ Cmd(c).amo
-     \/ c \notin DOMAIN snap0
-     \/ snap0[c].cone # ConeState(c, last.fs0)
-(* C12 / C11 / C08 under-building, stamp level: after a successful build every command in the cone of the     *)
-(* built key last ran on exactly the current state of its direct inputs, reads and outputs                                               *)
+     \/ c \notin DOMAIN snap0                         \* never ran successfully (or its results were lost with the database)
+     \/ snap0[c].sig # CmdSig(c)                      \* its definition changed
+     \/ snap0[c].ins # DirectIn(c, fs)                \* what it reads is not what it read last time (inputs are final once it ran)
+     \/ snap0[c].outs # DirectOut(c, last.fs0)        \* its outputs were touched since it wrote them
+(* C08 / C11 / C12 under-building, stamp level: after a successful build every command in the cone of the built key     *)
+(* last ran with the current definition, on exactly the current state of its inputs and reads, and its outputs are as   *)
+(* it left them                                                                                                          *)
 SeenCurrent ==
   (IsBuild /\ last.ok) =>
      \A n \in ReachableFileOutputs(last.k) :
-        LET c == ShellProducer(n) IN c \in DOMAIN snap /\ snap[c].direct = DirectState(c, fs)
+        LET c == ShellProducer(n) IN c \in DOMAIN snap /\ snap[c] = Snap(c, fs)
 =============================================================================
